@@ -87,15 +87,18 @@ PROPS["C20"] = dict(
                  "the /dev/urandom seeder is exercised in a build where it is the only system seeder and its open/read/close are routed to the harness (scripted short reads, EINTR, errors, end of file)"],
     targets=[dict(name="c20_random", src="c20_random.cpp", flavour="san", libs=SSL_LIBS, noseed=True),
              dict(name="c20_sysseed", src="c20_sysseed.cpp", flavour="san", libs=SSL_LIBS, noseed=False),
-             dict(name="c20_seeder", src="c20_seeder.cpp", flavour="san", libs=SSL_LIBS, urandom_seeder=True)],
+             dict(name="c20_seeder", src="c20_seeder.cpp", flavour="san", libs=SSL_LIBS, urandom_seeder=True),
+             dict(name="c20_getentropy", src="c20_getentropy.cpp", flavour="san", libs=SSL_LIBS, getentropy_seeder=True)],
     quick=[("c20_random", "enum", dict(shards=16)),
            ("c20_random", "rc", dict(cases=960, shards=16)),
            ("c20_sysseed", "rc", dict(cases=16, shards=2)),
-           ("c20_seeder", "rc", dict(cases=4000, shards=4))],
+           ("c20_seeder", "rc", dict(cases=4000, shards=4)),
+           ("c20_getentropy", "rc", dict(cases=400, shards=2))],
     thorough=[("c20_random", "enum", dict(shards=16)),
               ("c20_random", "rc", dict(cases=16000, shards=16)),
               ("c20_sysseed", "rc", dict(cases=200, shards=4)),
-              ("c20_seeder", "rc", dict(cases=100000, shards=8))],
+              ("c20_seeder", "rc", dict(cases=100000, shards=8)),
+              ("c20_getentropy", "rc", dict(cases=4000, shards=4))],
     floor=dict(quick=300, thorough=3000),
 )
 
